@@ -32,6 +32,7 @@ Definition hash_str (s : str) : N :=
 Inductive case :=
 | CFile (t : cls) (c : root) (accepted : bool) (static dynamic apps cursor : list N)
 | CDash (t : cls) (srcs : list str) (g : integ) (accepted : bool) (static dynamic apps : list N)
+| CSrc (t : cls) (name : str) (g : integ) (accepted : bool) (static dynamic apps store : list N) (quiet : bool)
 | CClass (t : cls).
 
 Definition ver : str := s2r "verif1".
@@ -76,6 +77,16 @@ Definition check (c : case) : bool :=
       then acc && check_texts (conn_texts (all_sql_dash ver srcs g)) st dy
            && list_eqb N.eqb (sortN (pool_texts (all_sql_dash ver srcs g))) (sortN apps)
       else negb acc && is_nil st && is_nil dy && is_nil apps
+  (* web.SaveSource with [name], an integration that refers to it is already stored:
+     stored iff save_source_ok; when rejected NOTHING reaches the database (quiet);
+     when stored the tasks of the integration run on the new source; everything the
+     database sees on shovel.sources / shovel.integrations is a constant statement *)
+  | CSrc t name g acc st dy apps store quiet =>
+      forallb (fun x => existsb (N.eqb x) (map hash_str store_texts)) store &&
+      if save_source_ok (mk_uni t) name
+      then acc && check_texts (conn_texts (all_sql_dash ver [name] g)) st dy
+           && list_eqb N.eqb (sortN (pool_texts (all_sql_dash ver [name] g))) (sortN apps)
+      else negb acc && quiet && is_nil st && is_nil dy && is_nil apps && is_nil store
   | CClass t =>
       forallb (fun x => match x with (c, l, d) =>
                  if c <? 128 then Bool.eqb l (ascii_letter c) && Bool.eqb d (ascii_digit c) else true end) t
